@@ -42,4 +42,4 @@ class C04(DTDCheck):
         # reader count driven wrong by a task that reads one datum through two flows: a later
         # writer starts while readers of the datum are still running
         seq = "0x ; 0r 0r 0x ; " + " ; ".join([" ; ".join(["0r"] * 5) + " ; 0x"] * 8)
-        return ["dtd 1 8 lfq 0 0 %d 0 | %s" % (s, seq) for s in (11, 12, 13)]
+        return ["dtd 1 8 lfq 0 0 %d 0 | %s" % (s, seq) for s in (11, 12, 13)] + self.late_rr_cases()
